@@ -1,7 +1,7 @@
 T = "GeomV.C02."
 CFG = {
     "id": "C02",
-    "lean_modules": ["GeomV.C02.Proofs", "GeomV.C02.Ties", "GeomV.C02.ProofsFloat", "GeomV.C02.IEEE", "GeomV.C02.TiesLoops", "GeomV.C02.ProofsIEEE", "GeomV.C02.ProofsNaN", "GeomV.C02.ProofsXF", "GeomV.C02.ProofsOvf"],
+    "lean_modules": ["GeomV.C02.Proofs", "GeomV.C02.Ties", "GeomV.C02.ProofsFloat", "GeomV.C02.IEEE", "GeomV.C02.TiesLoops", "GeomV.C02.ProofsIEEE", "GeomV.C02.ProofsNaN", "GeomV.C02.ProofsXF", "GeomV.C02.ProofsOvf", "GeomV.C02.ProofsLat"],
     "exe": "geomv_c02",
     "go_cmd": "c02",
     "stages": ["go:gen", "go:impl", "lean:judge"],
@@ -21,7 +21,7 @@ CFG = {
                                  "C02_xf_finite_eq_model", "C02_xf_finite_spec",
                                  "C02_tie_GenOL_loops", "C02_tie_Polygons", "C02_overflow_breaks_within", "C02_overflow_misses_onEdge",
                                  "C02_overflow_false_onEdge", "C02_overflow_false_inside", "C02_no_overflow_sub",
-                                 "C02_no_overflow_pointSubtract"]],
+                                 "C02_no_overflow_pointSubtract", "C02_no_overflow_on_lattice"]],
     "lean_dirs": ["C02"],
     "trusted_base": [
         "Lean 4.33.0 kernel; axioms of every theorem printed by #print axioms must be within {propext, Classical.choice, Quot.sound}",
